@@ -5,6 +5,6 @@ cd /verif/.cache/ocaml
 if [ ! -f driver ] || [ -n "$(find /verif/coq/Model /verif/coq/Spec /verif/coq/Extract /verif/ocaml -newer driver \( -name '*.vo' -o -name '*.ml' -o -name 'Extract.v' \) 2>/dev/null | head -1)" ]; then
   timeout 600 coqc -Q /verif/coq LN /verif/coq/Extract/Extract.v >/dev/null
   cp /verif/ocaml/*.ml .
-  ocamlfind ocamlopt -package zarith -linkpkg -w -a model.mli model.ml util.ml $(ls /verif/ocaml | grep -v '^util.ml$\|^driver.ml$' | grep '\.ml$' | sort || true) driver.ml -o driver.new
+  ocamlfind ocamlopt -package zarith -linkpkg -w -a model.mli model.ml util.ml sexp.ml specio.ml $(ls /verif/ocaml | grep -v '^util.ml$\|^driver.ml$\|^sexp.ml$\|^specio.ml$' | grep '\.ml$' | sort || true) driver.ml -o driver.new
   mv driver.new driver
 fi
